@@ -59,12 +59,10 @@ namespace options
                 name_ = arg_;
             }
 
-            if (!is_value() && !is_double_dash())
+            // one or two dashes followed by something that is neither a dash nor the '='
+            if (!is_value() && !is_double_dash() && !is_argument())
             {
-                if (!std::regex_match(arg, std::regex("-{1,2}[^-=]+[^=]*=?.*")))
-                {
-                    raise<parsing_error>("The user input couldn't be parsed. (", arg, ")");
-                }
+                raise<parsing_error>("The user input couldn't be parsed. (", arg, ")");
             }
         }
 
